@@ -26,7 +26,7 @@ m = {
     "setup_cmd": "./setup.sh",
     "hooks": {
         "guard": "verif",
-        "enable": "go build -tags verif (harness module /verif with `replace github.com/crate-crypto/go-ipa => /repo`); flavours: -race, -tags verif,noadx, GOARCH=386",
+        "enable": "go build -tags verif (harness module /verif with `replace github.com/crate-crypto/go-ipa => /repo`); flavours: -race, -tags verif,noadx, -tags verif,amd64_adx, GOARCH=386",
         "baseline_off_cmd": "cd /repo && GOFLAGS=-mod=mod GOPROXY=off GOSUMDB=off GOTOOLCHAIN=local go test -vet=off -count=1 -timeout 25m ./...",
         "source_commits": ["57366c4", "a4f5fcf", "248af53"],
         "add_only": True,
